@@ -91,6 +91,11 @@ func (v *autoEscapeVisitor) Enter(n parse.Node) {
 	case *parse.BlockNode:
 		v.push(v.guessTypeFromName(node.Origin))
 	case *parse.PrintNode:
+		if f, ok := node.X.(*parse.FilterExpr); ok && (f.Name == "escape" || f.Name == "raw") {
+			// Explicitly escaped (or marked raw) by the template author: escaping
+			// the result again for the template's content type would escape it twice.
+			return
+		}
 		ct := v.current()
 		v := node.X
 		r := parse.NewFilterExpr(
